@@ -75,12 +75,16 @@ def run(ctx):
             arg = rng.choice([None, None, rng.randrange(0, 9)])
             calls.append(arg)
             steps.append(p._steps)
+            if rng.random() < 0.5:
+                # logging the hyper-parameters between preconditioner.step() and scheduler.step() changes nothing
+                _ = (p.factor_update_steps, p.inv_update_steps, p.damping, p.factor_decay, p.kl_clip, p.lr)
             try:
                 s.step(arg) if arg is not None else s.step()
             except OverflowError:
                 ok = False
                 break
-            cur = [p._factor_update_steps, p._inv_update_steps, p._damping, p._factor_decay, p._kl_clip, p._lr]
+            # what the preconditioner will use: the public properties
+            cur = [p.factor_update_steps, p.inv_update_steps, p.damping, p.factor_decay, p.kl_clip, p.lr]
             # values must still be exactly representable for the exact comparison to be meaningful
             if any(abs(float(x)) > 2**40 or (x != 0 and abs(float(x)) < 2**-300) for x in cur):
                 ok = False
@@ -194,6 +198,16 @@ def run(ctx):
             pass
         lines.append(f'expdecay cap={rat(cap)} ks=' + ','.join(map(str, ks)))
         pend.append((case, None, vals))
+        # the schedule is a function of the step alone: the SAME object asked again in a non-monotone order (roll-back to
+        # an earlier checkpoint, one schedule shared by two preconditioners) answers the same
+        ks2 = [rng.randrange(kmax) for _ in range(200)] + [0, 1, 2, kmax - 1, 1, 0]
+        vals2 = [f(k) for k in ks2]
+        lines.append(f'expdecay cap={rat(cap)} ks=' + ','.join(map(str, ks2)))
+        pend.append((dict(case, order='non-monotone'), None, vals2))
+        if any(v2 != vals[k] for k, v2 in zip(ks2, vals2)):
+            k_bad = next(k for k, v2 in zip(ks2, vals2) if v2 != vals[k])
+            ctx.fail(f'exp_decay schedule with cap {cap} answers {f(k_bad)} at step {k_bad} after having been asked about later '
+                     f'steps, {vals[k_bad]} before: not a function of the step', dict(case, step=k_bad), 'expdecay-history')
         ctx.evaluations += len(ks)
         ctx.keys.add(('expdecay', rat(cap)))
     for (case, err, vals), mo in zip(pend, ctx.model.ask(lines)):
